@@ -66,3 +66,16 @@ Theorem C11_whole_set_local_clustering n A i :
   = if Qc_eq_dec (k * (k - 1))%Qc 0%Qc then 0%Qc else (lp / (k * (k - 1)))%Qc.
 Proof. exact (cross_local_clustering_whole n A i). Qed.
 Print Assumptions C11_whole_set_local_clustering.
+
+(* ---- the two unweighted kernels AS WRITTEN IN THE CURRENT numerics.pyx
+        (regenerated on every run: loop nest over unique pairs, counting
+        conditions, quotient) count what the model counts ---- *)
+From PV.Gen Require Import CrossK.
+From PV.Proofs Require Import CrossGen.
+
+Theorem C11_kernels_are_model A l2 n1 :
+  triples_of A l2 n1 = pair_loop (fun n3 n2 => qb (gen_ct_triples A n1 n2 n3)) l2 /\
+  triangles_of A l2 n1 = pair_loop (fun n3 n2 => qb (gen_ct_triangles A n1 n2 n3)) l2 /\
+  triangles_of A l2 n1 = pair_loop (fun n3 n2 => qb (gen_clc_triangles A n1 n2 n3)) l2.
+Proof. exact (gen_counts_are_model A l2 n1). Qed.
+Print Assumptions C11_kernels_are_model.
